@@ -287,10 +287,13 @@ def do_op(item):
     mA, mB = oa.member(P), ob.member(P)
     cl = np.minimum(oa.clear(P), ob.clear(P))
     exp = apply_op(op, mA, mB)
-    ok = cl >= margin
-    res["skipped_touching"] += int((~ok).sum())
     col = apply_op(op, oa.column(P), ob.column(P))
     colok = np.minimum(col_clear(oa, P), col_clear(ob, P)) >= margin
+    ok = (cl >= margin) & colok
+    if op == "difference" and ob.dim < oa.dim:
+        # members of a lower-dimensional B are boundary points of A - B (its closure contains them)
+        ok &= ~mB
+    res["skipped_touching"] += int((~ok).sum())
     o = Obs(Rg, P)
     if o.cp is None:
         e = o.cp_err
@@ -309,60 +312,84 @@ def do_op(item):
     planes = sorted({o_.plane_z for o_ in (oa, ob) if o_.plane_z is not None})
     desc0 = f"R = A.{op}(B) is a {tname(Rg)}" + (f" with z={getattr(Rg, 'z', None)}" if hasattr(Rg, "z") else "") + f"; A={sa}; B={sb}; margin={margin:.3g}"
 
+    # lenient readings used only to *classify* a disagreement as height-related: every
+    # planar operand read as its infinite column, or the probe projected into a plane
+    mems = {"A": [mA], "B": [mB]}
+    if oa.has_column():
+        mems["A"].append(oa.column(P))
+    if ob.has_column():
+        mems["B"].append(ob.column(P))
+    any_true = np.zeros(len(P), bool)
+    any_false = np.zeros(len(P), bool)
+    for ca in mems["A"]:
+        for cb in mems["B"]:
+            e = apply_op(op, ca, cb)
+            any_true |= e
+            any_false |= ~e
+    for z0 in planes + [0.0]:
+        Pz = P.copy()
+        Pz[:, 2] = z0
+        e = apply_op(op, oa.member(Pz), ob.member(Pz))
+        valid = np.minimum(oa.clear(Pz), ob.clear(Pz)) >= margin
+        any_true |= e | ~valid
+        any_false |= ~e | ~valid
+    found = {}  # tag -> (indices, text)
+
+    def note(tag, sel, text, *cols):
+        idx = np.nonzero(sel)[0]
+        if len(idx):
+            found[tag] = f"[{tag}] {len(idx)} probes: {text}: " + examples(P, idx, *cols)
+
+    # tolerant membership for the zero-tolerance line regions: distance <= 1e-9 counts
+    cp = o.cp.copy()
+    if isinstance(Rg, R.PolylineRegion) and o.dist is not None:
+        cp = cp | (o.dist <= 1e-9)
     # (a) membership of the result
-    bad = ok & (o.cp != exp)
-    if bad.any():
-        zi = bad & colok & (o.cp == col)
-        for tag, sel in (("z-ignored", zi), ("member-missing", bad & ~zi & exp), ("nonmember-included", bad & ~zi & ~exp)):
-            idx = np.nonzero(sel)[0]
-            if len(idx):
-                viol(
-                    res,
-                    f"{pre}:{tag}",
-                    f"{len(idx)} of {int(ok.sum())} judged probes: containsPoint disagrees with {op}(p in A, p in B)"
-                    + (" but agrees with the operands' infinite footprint columns (height ignored)" if tag == "z-ignored" else "")
-                    + f". {desc0}. probes (expected, observed): "
-                    + examples(P, idx, ("expected", exp), ("observed", o.cp)),
-                    item,
-                )
+    bad = ok & (cp != exp)
+    expl = np.where(cp, any_true, any_false)
+    note("member-missing", bad & exp & ~expl, "expected members not contained", ("expected", exp), ("observed", cp))
+    note("nonmember-included", bad & ~exp & ~expl, "clear non-members contained", ("expected", exp), ("observed", cp))
+    note("z-ignored", bad & expl, "containsPoint disagrees with the 3-D set but agrees with a reading that ignores the height of a planar operand", ("expected", exp), ("observed", cp))
     # distance zero exactly on members
+    zR = float(Rg.z) if isinstance(Rg, R.PolygonalRegion) else (0.0 if isinstance(Rg, R.PolylineRegion) else None)
+    dropped = np.zeros(len(P), bool)
     if o.dist is not None:
         tol = 1e-5
         badm = ok & exp & (o.dist > tol)
         badn = ok & ~exp & (o.dist < 0.5 * margin)
-        rz = getattr(Rg, "z", None)
-        dropped = isinstance(Rg, R.PolygonalRegion) and planes and all(abs(float(rz) - z) > 1e-9 for z in planes)
-        for tag, sel in (("dist-positive-on-member", badm), ("dist-zero-on-nonmember", badn)):
-            idx = np.nonzero(sel)[0]
-            if len(idx):
-                t = "z-dropped" if dropped else tag
-                viol(
-                    res,
-                    f"{pre}:{t}",
-                    f"{len(idx)} judged probes: distanceTo of the result is {'positive on members' if sel is badm else 'zero on clear non-members'}"
-                    + (f" - the planar result sits at z={rz} but the operands' planes are {planes}" if dropped else "")
-                    + f". {desc0}. probes: "
-                    + examples(P, idx, ("member", exp), ("distanceTo", o.dist)),
-                    item,
-                )
+        if zR is not None and badm.any():
+            # hypothesis: right content in x, y but at the wrong height
+            for i in np.nonzero(badm)[0]:
+                if P[i, 2] != zR and float(Rg.distanceTo(vec((P[i, 0], P[i, 1], zR)))) <= tol:
+                    dropped[i] = True
+        note("z-dropped", dropped, f"the result holds these members' (x, y) but sits at height {zR} instead of the operands' plane(s) {planes}", ("member", exp), ("distanceTo", o.dist))
+        note("dist-positive-on-member", badm & ~dropped & ~any_false, "distanceTo of the result is positive on members", ("member", exp), ("distanceTo", o.dist))
+        note("dist-zero-on-nonmember", badn & ~any_true, "distanceTo of the result is zero on clear non-members", ("member", exp), ("distanceTo", o.dist))
+        note("z-ignored-distance", (badm & ~dropped & any_false) | (badn & any_true), "distanceTo of the result is zero / positive as if the height of a planar operand were ignored", ("member", exp), ("distanceTo", o.dist))
         res["dist_judged"] += int(ok.sum())
     # every member probe inside the AABB of the result
     if o.aabb is not None:
         lo, hi = o.aabb
         outside = ok & exp & np.any((P < lo - 1e-5) | (P > hi + 1e-5), axis=1)
-        idx = np.nonzero(outside)[0]
-        if len(idx):
-            viol(res, f"{pre}:aabb-excludes-member", f"{len(idx)} member probes lie outside the result's AABB {lo.tolist()}..{hi.tolist()}. {desc0}. probes: " + examples(P, idx), item)
+        inxy = np.all((P[:, :2] >= lo[:2] - 1e-5) & (P[:, :2] <= hi[:2] + 1e-5), axis=1)
+        if zR is not None and lo[2] == hi[2] == zR and planes and all(abs(zR - z) > 1e-9 for z in planes):
+            note("z-dropped", outside & inxy, f"the result's AABB lies in the plane z={zR}, the operands' plane(s) are {planes}") if "z-dropped" not in found else None
+            outside = outside & ~inxy
+        note("aabb-excludes-member", outside & ~dropped & ~any_false, f"member probes outside the result's AABB {lo.tolist()}..{hi.tolist()}")
         res["aabb_judged"] += 1
     # union: distance is the minimum of the operands' distances
-    if op == "union" and o.dist is not None:
+    if op == "union" and o.dist is not None and not found:
         da, db = oa.dist(P), ob.dist(P)
         if da is not None and db is not None:
             want = np.minimum(da, db)
             tolv = 1e-5 + oa.band + ob.band
-            idx = np.nonzero(np.abs(o.dist - want) > tolv * (1 + want))[0]
-            if len(idx) and not any(s.endswith(":z-dropped") for s, _, _ in res["violations"]):
-                viol(res, f"{pre}:dist-wrong-value", f"{len(idx)} probes: distanceTo(A u B) != min(d(A), d(B)). {desc0}. probes: " + examples(P, idx, ("expected", want), ("observed", o.dist)), item)
+            note("dist-wrong-value", np.abs(o.dist - want) > tolv * (1 + want), "distanceTo(A u B) != min(d(A), d(B))", ("expected", want), ("observed", o.dist))
+    if found:
+        order = ["z-dropped", "member-missing", "nonmember-included", "dist-positive-on-member", "dist-zero-on-nonmember", "aabb-excludes-member", "dist-wrong-value", "z-ignored", "z-ignored-distance"]
+        prim = next(t for t in order if t in found)
+        if prim == "z-ignored-distance":
+            prim = "z-ignored"
+        viol(res, f"{pre}:{prim}", f"{desc0}; {int(ok.sum())} probes judged.\n" + "\n".join(found[t] for t in order if t in found), item)
     # sizes: inclusion-exclusion is checked in the parent from these numbers
     try:
         sz = Rg.size
@@ -411,10 +438,10 @@ def do_prim(item):
     T = tname(A)
     res["pair"] = T
     m = oa.member(P)
-    ok = oa.clear(P) >= margin
-    res["skipped_touching"] += int((~ok).sum())
     col = oa.column(P)
     colok = col_clear(oa, P) >= margin
+    ok = (oa.clear(P) >= margin) & colok
+    res["skipped_touching"] += int((~ok).sum())
     o = Obs(A, P)
     if o.cp is None:
         viol(res, f"containsPoint:{T}:crash-{type(o.cp_err).__name__}", f"containsPoint raised {o.cp_err!r:.300} on {sa}", item)
@@ -439,6 +466,9 @@ def do_prim(item):
                 + examples(P, idx, ("expected", m), ("observed", o.cp)),
                 item,
             )
+    if not oa.judge_metric:
+        res["refusals"].append(f"metric-unspecified:{T}")
+        return res
     # distance
     want = oa.dist(P)
     if o.dist is not None:
@@ -545,6 +575,9 @@ def do_rel(item):
         B = build(sb)
         TB = tname(B)
         res["pair"] = f"{TA}-x-{TB}"
+        if not (oa.judge_rel and ob.judge_rel):
+            res["refusals"].append(f"relations-unspecified:{TA}-x-{TB}")
+            continue
         P, diag = probes_for([oa, ob], item.get("n3", 9), item.get("n2", 13))
         margin = 1e-3 * diag
         mA, mB = oa.member(P), ob.member(P)
@@ -553,10 +586,12 @@ def do_rel(item):
         alo, ahi = oa.aabb()
         blo, bhi = ob.aabb()
         sep = np.max(np.maximum(blo - ahi, alo - bhi))  # > 0: bounding boxes are disjoint
-        if cfg.startswith("overlap"):
-            want = True if both.any() else None
+        if sep > 10 * margin:
+            want = False
+        elif both.any():
+            want = True
         else:
-            want = False if sep > 10 * margin else None
+            want = None
         # ---- intersects
         pre = f"intersects:{TA}-x-{TB}"
         try:
@@ -580,7 +615,7 @@ def do_rel(item):
                         tag = "false-negative"
                         why = f"probe {fmtp(P[np.nonzero(both)[0][0]])} lies clearly in both"
                     else:
-                        tag = "z-ignored" if (cfg == "apart-z" and colboth.any()) else "false-positive"
+                        tag = "z-ignored" if colboth.any() else "false-positive"
                         why = f"the exact bounding boxes are {sep:.3g} apart"
                     viol(res, f"{pre}:{tag}", f"[{cfg}] A.intersects(B) = {got} but {why}; A={sa}; B={sb}", {**item, "cfgs": [[cfg, sa, sb]]})
         # ---- containsRegion
@@ -601,7 +636,7 @@ def do_rel(item):
                     res["refused"] += 1
                     res["refusals"].append(f"{pre}:{type(e).__name__}")
                 else:
-                    viol(res, f"{pre}:crash-{type(e).__name__}", f"[{cfg}] containsRegion raised {e!r:.300}; A={sa}; B={sb}", {**item, "cfgs": [[cfg, sa, sb]]})
+                    viol(res, f"containsRegion:{TA}:crash-{type(e).__name__}", f"[{cfg}] containsRegion raised {e!r:.300}; A={sa}; B={sb}", {**item, "cfgs": [[cfg, sa, sb]]})
             if gotc is not None:
                 c["contains_" + str(wantc)] = c.get("contains_" + str(wantc), 0) + 1
                 res["judged"] += 1
@@ -683,10 +718,11 @@ def do_proj(item):
             if clear[i] < margin or edged[i] < margin:
                 res["skipped_touching"] += 1
                 continue
-            ts = np.sort(np.abs(t[i][~np.isnan(t[i])]))
-            # duplicates on coplanar diagonals collapse
-            ts = ts[np.concatenate([[True], np.diff(ts) > 1e-9])] if len(ts) else ts
-            signed = t[i][~np.isnan(t[i])]
+            signed = np.sort(t[i][~np.isnan(t[i])])
+            # hits on the shared edge of two coplanar triangles are reported twice
+            if len(signed):
+                signed = signed[np.concatenate([[True], np.diff(signed) > 1e-9])]
+            ts = np.sort(np.abs(signed))
             if mem[i]:
                 want, kind = P[i], "member"
             elif len(ts) == 0:
@@ -755,7 +791,9 @@ def plan(tier):
         items.append({"t": "proj", "name": "meshvolU-rot", "a": {"kind": "mesh", "cells": U_CELLS, "pos": [0.25, 0.0, 1.5], "dims": [3.0, 3.0, 1.5], "ypr": [0.0, 0.0, 0.0], "surface": True}, "n3": 9, "n2": 5})
     for na, sa in shp:
         for nb, sb in shp:
-            oa, ob = ora[na], ora[nb]
+            if na == nb:  # same kind and shape: use a displaced copy as second operand
+                sb = S.shifted(sb, 0.5, 0.25, 0.0)
+            oa, ob = ora[na], S.oracle(sb)
             cfgs = [("std", sa, sb)]
             # kinds locked at z = 0 can only really overlap a partner brought down to z = 0
             if oa.z_locked != ob.z_locked:
@@ -782,9 +820,9 @@ def plan(tier):
             rc.append(("apart-x", a0, S.shifted(b0, 9.0, 0.5, 0.0)))
             o_b0 = S.oracle(b0)
             o_a0 = S.oracle(a0)
-            if not o_b0.z_locked and sb["kind"] != "footprint" and sa["kind"] != "footprint":
-                alo, ahi = o_a0.aabb()
-                blo, bhi = o_b0.aabb()
+            alo, ahi = o_a0.aabb()
+            blo, bhi = o_b0.aabb()
+            if not o_b0.z_locked and np.isfinite(ahi[2]) and np.isfinite(blo[2]):
                 dz = float(ahi[2] - blo[2]) + 0.75
                 rc.append(("apart-z", a0, S.shifted(b0, 0.0, 0.0, dz)))
             if len(ov) > 1:
